@@ -79,7 +79,7 @@ def _register_decode_glue():
             ctx.prove("post.additional_args_list_every_table_entry_no_instruction_used", z3.BoolVal(
                 [type(a).__name__ for a in additional] == ["Name"] * 1 + ["Varname"] * (1 if tp else 6) + ["Cellvar"] + ["Constant"] * (1 if doc is not None else 2)),
                 detail=repr(additional))
-        harness("blocks.bytes_to_blocks.call_sites[%s,units=%d,%s]" % (kind, n_args, second), props=["C02", "C13", "C09", "C01"],
+        harness("blocks.bytes_to_blocks.call_sites[%s,units=%d,%s]" % (kind, n_args, second), props=["C02", "C13", "C09", "C01", "C10"],
                 functions=["code_data._blocks.bytes_to_blocks"], configs="all",
                 assumes=["callee contracts: _parse_bytes, to_arg (discharged on the real callees)"],
                 notes="modular: _parse_bytes and to_arg are stubs carrying their contracts; the caller passes opcode/arg/next_offset and the five tables in order, seeds parameters and the "
